@@ -8,7 +8,11 @@ regenerated from it (`Nv.Gen.C19.cfg`): the `fmt.Sprintf` format of the cache ke
 and in `VerifySMSCode`, and the argument of `fn(…)` in `genNonceStr`.  Keys are computed as real
 character strings, so that collisions of distinct (area, phone) pairs are mirrored exactly.
 
-No clock: the three durations are used in their always/never regimes only (`Params`).
+Time is exact arithmetic on a clock in MILLISECONDS: `State.now` is the reading, every operation carries the reading at
+which it happens (`advance`: readings never decrease), `Params.ttl / minInterval / window` are the configured durations in
+ms (any sign), entries store `setTime` and `counterTime`.  The three comparisons are made exactly as the source makes them,
+their kinds (`<` or `<=`, `>` or `>=`) being regenerated from it (`Cfg.minIntervalCmp / windowCmp / ttlCmp`).  A new
+entry has Go's zero `setTime`: `now.Sub(zero)` saturates at the largest duration, so a first send is never too frequent.
 The cache is the LRU cache of `cache.LRUCache` with capacity `CacheSize` and entries of size 1: a list, most
 recently used first; `Set` (accepted send) moves to the front and evicts from the back, `Get` (verify) moves to
 the front, `Peek` (send) does not reorder.
@@ -33,11 +37,34 @@ inductive NonceBound
   | unknown
 deriving DecidableEq, Repr
 
+/-- `checkSend`: refuse as too frequent iff `elapsed < MinInterval` (today) or `elapsed <= MinInterval` -/
+inductive LtCmp
+  | lt | le | unknown
+deriving DecidableEq, Repr
+
+/-- `checkSend` window refresh / `checkVerify` timeout: iff `elapsed > d` (today) or `elapsed >= d` -/
+inductive GtCmp
+  | gt | ge | unknown
+deriving DecidableEq, Repr
+
 structure Cfg where
   sendKeyFmt : KeyFmt
   verifyKeyFmt : KeyFmt
   nonceBound : NonceBound
+  minIntervalCmp : LtCmp    -- now.Sub(c.setTime) < MinInterval
+  windowCmp : GtCmp         -- now.Sub(c.counterTime) > CounterDuration
+  ttlCmp : GtCmp            -- now.Sub(c.setTime) > TTL
 deriving DecidableEq, Repr
+
+def LtCmp.holds : LtCmp → Int → Int → Bool
+  | .lt, a, b => decide (a < b)
+  | .le, a, b => decide (a ≤ b)
+  | .unknown, a, b => decide (a < b)
+
+def GtCmp.holds : GtCmp → Int → Int → Bool
+  | .gt, a, b => decide (a > b)
+  | .ge, a, b => decide (a ≥ b)
+  | .unknown, a, b => decide (a > b)
 
 /-- shape facts of the source the model is written against (regenerated, compared with `expected`) -/
 structure Facts where
@@ -58,7 +85,10 @@ deriving DecidableEq, Repr
 def Facts.expected : Facts := ⟨true, true, true, true, true, true, true, true, true, true, true, true⟩
 
 /-- configurations for which the property theorems are proved -/
-def Proved (c : Cfg) : Prop := c.sendKeyFmt = .lenPrefix ∧ c.verifyKeyFmt = .lenPrefix ∧ c.nonceBound = .len
+def Proved (c : Cfg) : Prop :=
+  c.sendKeyFmt = .lenPrefix ∧ c.verifyKeyFmt = .lenPrefix ∧ c.nonceBound = .len ∧
+  -- "sends closer together than the minimum interval are refused": `<`; "after the lifetime": `>`; window: `>` as coded
+  c.minIntervalCmp = .lt ∧ c.windowCmp = .gt ∧ c.ttlCmp = .gt
 instance : DecidablePred Proved := fun c => by unfold Proved; exact inferInstance
 
 /-- decimal digits of `n` (what `%d` prints), most significant first; `fuel ≥ n` is always enough -/
@@ -81,12 +111,14 @@ inductive Code
   | sym (k : Nat)
 deriving DecidableEq, Repr
 
-/-- `vCache` without its two time stamps (regimes replace them) -/
+/-- `vCache`; times in ms. A cached entry always has a set `setTime` (it is stored only after `updateSend`) -/
 structure Entry where
   sendCount : Int
   verifyCount : Int
   code : Code
   hash : Nat
+  setTime : Nat
+  counterTime : Nat
 deriving DecidableEq, Repr
 
 /-- `Config` and the fake SMS sender, durations in their always/never regimes -/
@@ -96,9 +128,9 @@ structure Params where
   codeLen : Int              -- CodeLen; negative values: real mode ⇒ empty code, mock mode ⇒ genCode panics (out of the property's domain)
   maxCount : Int
   maxVerify : Int
-  ttlExpired : Bool          -- TTL < 0: every verify is past the lifetime; otherwise TTL = 1000h: never
-  minIntervalBlocks : Bool   -- MinInterval = 1000h: every send after an accepted one is too frequent; otherwise ≤ 0: never
-  windowRefreshes : Bool     -- CounterDuration < 0: counter refreshed on every send; otherwise 1000h: never refreshed
+  ttl : Int                  -- TTL in ms
+  minInterval : Int          -- MinInterval in ms
+  window : Int               -- CounterDuration in ms
   smsFails : Bool            -- the SMS sender returns an error
 deriving DecidableEq, Repr
 
@@ -120,9 +152,13 @@ def setLRU (cap : Nat) (k : Str) (e : Entry) (c : Cache) : Cache := (touch k e c
 structure State where
   cache : Cache
   nsent : Nat        -- number of accepted sends so far (supply of fresh hashes / symbolic codes)
+  now : Nat          -- the clock reading (ms)
 deriving DecidableEq, Repr
 
-def State.init : State := ⟨[], 0⟩
+def State.init : State := ⟨[], 0, 0⟩
+
+/-- the clock is read at `t`; a reading below the current one is ignored (readings never decrease) -/
+def advance (t : Nat) (s : State) : State := { s with now := max s.now t }
 
 inductive SendResult
   | ok (h : Nat)
@@ -150,53 +186,54 @@ def genCode (pr : Params) (phone : Str) (k : Nat) : Code :=
   if pr.mock then .lit (mockCode phone pr.codeLen.toNat)
   else if pr.codeLen ≤ 0 then .lit [] else .sym k
 
-/-- `checkSend` on the fetched (or new) entry: `none` = passes, with the send counter to continue from -/
-def checkSend (pr : Params) (e : Option Entry) : Except SendResult Int :=
+/-- `checkSend` on the fetched (or new) entry at clock reading `now`: refusal, or (send counter, window start) to continue from -/
+def checkSend (c : Cfg) (pr : Params) (now : Nat) (e : Option Entry) : Except SendResult (Int × Nat) :=
   match e with
   | some e =>
-    if pr.minIntervalBlocks then .error .tooFreq
-    else if pr.windowRefreshes then .ok 0
-    else if e.sendCount > pr.maxCount then .error .countLimit else .ok e.sendCount
-  | none =>   -- new entry: zero setTime (never too frequent), counterTime = now, sendCount = 0
-    if pr.windowRefreshes then .ok 0
-    else if (0 : Int) > pr.maxCount then .error .countLimit else .ok 0
+    if c.minIntervalCmp.holds ((now : Int) - e.setTime) pr.minInterval then .error .tooFreq
+    else if c.windowCmp.holds ((now : Int) - e.counterTime) pr.window then .ok (0, now)
+    else if e.sendCount > pr.maxCount then .error .countLimit else .ok (e.sendCount, e.counterTime)
+  | none =>   -- new entry: zero setTime (elapsed saturates: never too frequent), counterTime = now (elapsed 0), sendCount = 0
+    if c.windowCmp.holds 0 pr.window then .ok (0, now)
+    else if (0 : Int) > pr.maxCount then .error .countLimit else .ok (0, now)
 
 /-- `SendSMSCode` on a cache key -/
-def sendK (pr : Params) (s : State) (key phone : Str) : State × SendResult :=
-  match checkSend pr (lookup key s.cache) with
+def sendK (c : Cfg) (pr : Params) (s : State) (key phone : Str) : State × SendResult :=
+  match checkSend c pr s.now (lookup key s.cache) with
   | .error r => (s, r)
-  | .ok cnt =>
+  | .ok (cnt, ct) =>
     if pr.mock && decide (pr.codeLen < 0) then (s, .panic) else
     let k := s.nsent + 1
-    let e : Entry := ⟨cnt + 1, 0, genCode pr phone k, k⟩
-    (⟨setLRU pr.cap key e s.cache, k⟩, if !pr.mock && pr.smsFails then .smsFail k else .ok k)
+    let e : Entry := ⟨cnt + 1, 0, genCode pr phone k, k, s.now, ct⟩
+    (⟨setLRU pr.cap key e s.cache, k, s.now⟩, if !pr.mock && pr.smsFails then .smsFail k else .ok k)
 
-/-- `checkVerify` on an entry whose attempt counter was already incremented -/
-def checkVerify (pr : Params) (e : Entry) (code : Code) (hash : Nat) : VerifyResult :=
+/-- `checkVerify` at clock reading `now` on an entry whose attempt counter was already incremented -/
+def checkVerify (c : Cfg) (pr : Params) (now : Nat) (e : Entry) (code : Code) (hash : Nat) : VerifyResult :=
   if e.verifyCount > pr.maxVerify then .retryLimit
   else if e.code ≠ code then .notMatch
   else if e.hash ≠ hash then .hashNotMatch
-  else if pr.ttlExpired then .timeout
+  else if c.ttlCmp.holds ((now : Int) - e.setTime) pr.ttl then .timeout
   else .ok
 
 /-- `VerifySMSCode` on a cache key -/
-def verifyK (pr : Params) (s : State) (key : Str) (code : Code) (hash : Nat) : State × VerifyResult :=
+def verifyK (c : Cfg) (pr : Params) (s : State) (key : Str) (code : Code) (hash : Nat) : State × VerifyResult :=
   match lookup key s.cache with
   | none => (s, .notExist)
   | some e =>
     let e' : Entry := { e with verifyCount := e.verifyCount + 1 }
-    (⟨touch key e' s.cache, s.nsent⟩, checkVerify pr e' code hash)
+    (⟨touch key e' s.cache, s.nsent, s.now⟩, checkVerify c pr s.now e' code hash)
 
 def send (c : Cfg) (pr : Params) (s : State) (area phone : Str) : State × SendResult :=
-  sendK pr s (mkKey c.sendKeyFmt area phone) phone
+  sendK c pr s (mkKey c.sendKeyFmt area phone) phone
 
 def verify (c : Cfg) (pr : Params) (s : State) (area phone : Str) (code : Code) (hash : Nat) :
     State × VerifyResult :=
-  verifyK pr s (mkKey c.verifyKeyFmt area phone) code hash
+  verifyK c pr s (mkKey c.verifyKeyFmt area phone) code hash
 
+/-- a timed operation: the clock reads `t` when it is called -/
 inductive Op
-  | send (area phone : Str)
-  | verify (area phone : Str) (code : Code) (hash : Nat)
+  | send (t : Nat) (area phone : Str)
+  | verify (t : Nat) (area phone : Str) (code : Code) (hash : Nat)
 deriving DecidableEq, Repr
 
 inductive Out
@@ -205,8 +242,8 @@ inductive Out
 deriving DecidableEq, Repr
 
 def step (c : Cfg) (pr : Params) (s : State) : Op → State × Out
-  | .send a p => let r := send c pr s a p; (r.1, .send r.2)
-  | .verify a p code h => let r := verify c pr s a p code h; (r.1, .verify r.2)
+  | .send t a p => let r := send c pr (advance t s) a p; (r.1, .send r.2)
+  | .verify t a p code h => let r := verify c pr (advance t s) a p code h; (r.1, .verify r.2)
 
 /-! ### `genNonceStr` -/
 
